@@ -29,7 +29,7 @@ on a scratch worktree). They are kept under `/verif/seeded/<id>/`
 (patch.diff, demo_test.go, the agent's README.md, meta.json). None is ever
 committed to /repo.
 
-Result: 208 changes: 3 waves x 11 properties x 3 (the second and third wave
+Result: 230 changes: 3 waves x 11 properties x 3 (the second and third wave
 were also given one-line descriptions of the earlier changes so as not to
 repeat them, and the third was asked for the hardest-to-notice realistic
 change), plus a fourth wave of 16 in which each of four agents got all eleven
@@ -42,12 +42,15 @@ a seventh of 22 (2 per property, asked for changes that need a combination of
 conditions: an option and an error path, state left by an earlier call, a
 particular kind of reader or writer) and an eighth of 22 (2 per property;
 the agents were shown, for their property, what every earlier change was and
-what it needed, and asked for a dimension none of them had touched).
-205 are reported by a quick check; 3 are recorded as not pursued
+what it needed, and asked for a dimension none of them had touched), and a
+ninth of 22 (2 per property, with the same list: one change made of two
+cooperating sites that each look fine alone, one that needs a particular
+fault, interleaving, kind of reader or sequence of calls).
+227 are reported by a quick check; 3 are recorded as not pursued
 (C07-w6-m3 needs one particular coincidence of window sizes that neither the
 agent's own sweeps nor ours produce; C08-w3-m3 and C09-w3-m3 need sources / strings of 16 MiB and more - beyond
 every size class the properties name, at seconds and hundreds of MB per run).
-190 of the 205 are reported by the check of the property they were written
+212 of the 227 are reported by the check of the property they were written
 against; 15 break another property's statement more directly and are reported
 there (concurrent callers or real parallelism -> C12: C19-w2-m3, C06-w3-m2,
 C09-w3-m2, C19-w3-m2, C08-w6-m2, C11-w6-m3, C08-w7-m2, C14-w7-m2, C19-w7-m1;
@@ -63,7 +66,12 @@ descriptions, before the first trial: long names in planted diagnostics, a
 leading byte-order mark, an endless stream behind a rejected header, the
 kinds of standard input, duplicate definitions, a trailing zero-byte read;
 2 after it: empty-buffer reads answered as `*os.File` answers them, a corpus
-file whose operand bytes carry positions of their own)
+file whose operand bytes carry positions of their own), 9 in wave 9
+(readers that also have Stat, Len or Size, four changes; option values and
+pooled buffers that outlive a call, two; a Prog re-loaded after it was listed;
+a straggler goroutine reading the caller's buffer; a pipe fed in pieces -
+all nine reported after the strengthenings listed below, and C12-w9-m1,
+seen in 1 run before, in 126 after)
 - and one wave-4 change (an endless diagnostic loop in the parser)
 made the check run for over an hour before the supervisor was given a bound
 on worker deaths (section 12);
@@ -192,6 +200,26 @@ The strengthenings, in one list:
   several named top-level blocks defined more than once (C16); reads into an
   empty buffer answered with (0, nil) at any offset, as `*os.File` does;
   corpus file `hand_operandpos.bcb`.
+* Wave 9 added: readers with optional methods as a fault kind
+  (`harness/sim/readerkinds.go`: Stat of a regular file with the true, a
+  smaller, a larger or zero size, of a pipe, failing; Len as bytes left or as
+  bytes arrived so far; Size zero, true, larger) for every other load in C09,
+  every corpus load in C14 and as load variants 10-13 of truncated files in
+  C13, where Stat/Size/Len describe the file as it was before the write was
+  interrupted; C16 histories through one long-lived set of Option values and
+  writers shared by many calls, with calls that fail half-way in between (a
+  warning followed by a runtime error, a diagnostic followed by a lexical
+  failure, a Dump onto a disk that fills up at byte k, a Load of a cut file),
+  each call's share of the common writers compared with the same call alone;
+  C12 callers own their input buffers and overwrite them as soon as a call is
+  back, and their inputs include lexical failures inside nested blocks and
+  expressions, a 64-230 KiB input that fails lexically in its second line, and
+  inputs whose outcome depends on starting from a clean top level; C19
+  executes, under all 8 settings, a Prog that listed and traced an earlier
+  (shorter or longer) program and then received the scenario's program
+  through Load, against the direct runs; C18 standard-input kind 4, a pipe
+  whose producer writes the program in three pieces with pauses; evidence
+  reports `distinct_states` (abstract quiescent states of the pipeline).
 * C19: programs with 236-330 locals; strings up to 4097 bytes; Execute given
   writers of its own; a failing output writer under all 8 settings; runs of
   more than 65 536 instructions.
